@@ -469,7 +469,14 @@ impl Ignore {
                 // off of `path`. Overall, this seems a little ham-fisted, but
                 // it does fix a nasty bug. It should do fine until we overhaul
                 // this crate.
-                let dirpath = self.0.dir.as_path();
+                // The absolute base is the absolute path of the directory we
+                // started the search in, so that is the directory whose path
+                // must be replaced by it, not the directory of this matcher.
+                let dirpath = self
+                    .parents()
+                    .take_while(|ig| !ig.0.is_absolute_parent)
+                    .last()
+                    .map_or(self.0.dir.as_path(), |ig| ig.0.dir.as_path());
                 let path_prefix = match strip_prefix("./", dirpath) {
                     None => dirpath,
                     Some(stripped_dot_slash) => stripped_dot_slash,
